@@ -13,8 +13,9 @@
        rbx rbp r12-r15 the prologue pushed, in reverse order.
    CHECKED BY EXECUTION, not proved: that no value the program still needs lives in a caller-saved
    register, the flags or below rsp across the call, and that the final register file is the entry
-   one (ISA model with call havoc, see Sem/X86Sem.v; 0..23 live variables at a print). AArch64 part:
-   pending the AArch64 model. *)
+   one (ISA model with call havoc, see Sem/X86Sem.v; 0..23 live variables at a print).
+   The AArch64 part (theorems C13_a64_*, including the survival of all values across the call on the
+   ISA semantics) and the RISC-V remarks are at the end of this file. *)
 From Coq Require Import List ZArith NArith.
 From SCC Require Import Model.Backend Model.X86 Sem.X86Sem Proof.X86Wf.
 Import ListNotations.
@@ -59,3 +60,238 @@ Theorem C13_x86_epilogue_restores_callee_saved :
   = Sem.X86Sem.callee_saved.
 Proof. exact epilogue_restores_callee_saved. Qed.
 Print Assumptions C13_x86_epilogue_restores_callee_saved.
+
+(* ======================================================================================== *)
+(* AArch64.  Statements only; proofs in Proof/A64Wf.v (arithmetic), Proof/A64Print.v and      *)
+(* Proof/A64Entry.v (on the ISA semantics Sem/A64Sem.v).  Register numbers are the code        *)
+(* generator's internal ones: 0..17 = X0..X17 (caller-saved), 18..28 = X19..X29 (callee-saved),*)
+(* 29 = X30 (link register); X18 is never used.                                                *)
+(* `A64Wf.sp_delta cs` = net change of SP over a straight-line list; `A64Wf.sp_safe d cs` walks *)
+(* the list with the displacement d of SP from its value in the body and demands d = 0 mod 16  *)
+(* at every BL and at every load/store with SP as base (the hardware check and AAPCS64), and   *)
+(* that SP is written only by SUB/ADD SP,SP,#i and STP-pre/LDP-post on SP.                     *)
+(*                                                                                              *)
+(* PROVED for EVERY context (any number of variables of any kinds):                            *)
+(*  - alignment: SP = 0 mod 16 at the BL and at every SP-relative store/load of the print      *)
+(*    sequence, and the sequence leaves SP where it was (C13_a64_print_sp_safe, built from     *)
+(*    C13_a64_stack_aligned_at_print_call, C13_a64_save_restore_balanced);                     *)
+(*  - what is saved: HEAP (X0), FREE (X1), every caller-saved register and X30 that holds a    *)
+(*    live temporary (C13_a64_saved_covers_live - the theorem that fails for the code before   *)
+(*    fix b8c7d78, see C13_a64_link_register_defect_witness), X30 exactly when the context has *)
+(*    a 13th variable, only clobberable registers, each once; the backup registers are         *)
+(*    callee-saved registers above every variable register;                                    *)
+(*  - mirror: the moves back are the swapped moves out, the loads are the stores reversed,     *)
+(*    same register, same cell; cells distinct, 8-aligned, inside the reserved area;           *)
+(*  - SEMANTICS (C13_a64_print_preserves_context): executing the print code on the ISA model   *)
+(*    from any state with a valid frame prints the value and ends in a state in which every    *)
+(*    temporary of every variable of the context, HEAP, FREE, SP, the heap and the stack at    *)
+(*    and above SP are unchanged - although the call destroyed X0-X17, X30, the flags and the  *)
+(*    stack below SP;                                                                          *)
+(*  - entry/exit: prologue and epilogue balanced, every access aligned, the epilogue reloads   *)
+(*    X19-X29 and X30 in mirror order; on the ISA model the epilogue restores them and SP from *)
+(*    any state that kept the body's SP and the saved cells (C13_a64_entry_exit).              *)
+(*  - whole programs: C13_a64_program_sp_discipline (SP aligned at every stack access and   *)
+(*    print call of every compiled program, SP only moved inside print brackets).             *)
+(* NOT proved: that the BODY between prologue and epilogue keeps the saved CELLS for every    *)
+(* program (whole-program simulation, the gap of C07); checked by execution.                   *)
+(* ======================================================================================== *)
+From Coq Require Import String.
+Open Scope list_scope.
+Open Scope Z_scope.
+From SCC Require Lang.AxSyn Model.A64 Sem.A64Sem Proof.A64State Proof.A64Wf Proof.A64Print Proof.A64Entry.
+
+Theorem C13_a64_stack_aligned_at_print_call :
+  forall (fb : N) (regs : list N), A64Wf.sp_delta (A64.save_caller_save_registers fb regs) mod 16 = 0.
+Proof. exact A64Wf.save_caller_save_alignment. Qed.
+Print Assumptions C13_a64_stack_aligned_at_print_call.
+
+Theorem C13_a64_save_restore_balanced :
+  forall (fb : N) (regs : list N),
+    A64Wf.sp_delta (A64.save_caller_save_registers fb regs) + A64Wf.sp_delta (A64.restore_caller_save_registers fb regs) = 0.
+Proof. exact A64Wf.save_restore_balanced. Qed.
+Print Assumptions C13_a64_save_restore_balanced.
+
+(* the whole print sequence, for every context, every printed temporary, print and println: SP is
+   16-byte aligned at the BL and at every SP-relative access, no other write to SP, net effect 0 *)
+Theorem C13_a64_print_sp_safe :
+  forall (newline : bool) (s : A64.atemp) (context : AxSyn.ctx) (d : Z),
+    d mod 16 = 0 ->
+    A64Wf.sp_safe d (A64.a_print newline s context) /\ A64Wf.sp_delta (A64.a_print newline s context) = 0.
+Proof. exact A64Wf.print_sp_safe. Qed.
+Print Assumptions C13_a64_print_sp_safe.
+
+Theorem C13_a64_restore_mirrors_save :
+  forall (fb : N) (regs : list N),
+    let rest := (List.length regs - A64.backup_used fb regs)%nat in
+    let area := A64.address (Z.of_nat (A64.push_count fb regs)) in
+    exists sub add,
+      A64.save_caller_save_registers fb regs =
+        A64Wf.movs_out fb regs ++ sub ++ (if Nat.eqb rest 0 then [] else A64Wf.strs fb regs) /\
+      A64.restore_caller_save_registers fb regs =
+        A64Wf.movs_back fb regs ++ (if Nat.eqb rest 0 then [] else A64Wf.ldrs fb regs) ++ add /\
+      A64Wf.movs_back fb regs = map A64Wf.mov_swap (A64Wf.movs_out fb regs) /\
+      A64Wf.ldrs fb regs = rev (map A64Wf.str_to_ldr (A64Wf.strs fb regs)) /\
+      ((rest = 0%nat /\ sub = [] /\ add = []) \/
+       (rest <> 0%nat /\ sub = [A64.SUBI A64.SP A64.SP area] /\ add = [A64.ADDI A64.SP A64.SP area])) /\
+      flat_map A64Wf.saved_reg (A64Wf.movs_out fb regs ++ A64Wf.strs fb regs) = regs /\
+      NoDup (flat_map A64Wf.str_offset (A64Wf.strs fb regs)) /\
+      Forall (fun i => 0 <= i /\ i + 8 <= area /\ i mod 8 = 0) (flat_map A64Wf.str_offset (A64Wf.strs fb regs)).
+Proof. exact A64Wf.restore_mirrors_save. Qed.
+Print Assumptions C13_a64_restore_mirrors_save.
+
+(* every caller-saved register (X0-X17) and the link register X30 that holds a live temporary is saved.
+   THIS is the statement that cannot be proved for the code before fix b8c7d78
+   (`first_free_register > REGISTER_NUM`): the lemma A64Wf.saved_covers_live breaks in its case r = 29. *)
+Theorem C13_a64_saved_covers_live :
+  forall (context : AxSyn.ctx) (i : nat) (b : AxSyn.binding) (n : Backend.tnum) (r : N),
+    nth_error context i = Some b -> (n = Backend.Snd \/ AxSyn.bchi b <> AxSyn.Ext) ->
+    A64.temporary_from_position (2 * N.of_nat i + Backend.tnum_n n) = Backend.Ok (A64.AR (A64.X r)) ->
+    (r <= 17)%N \/ r = 29%N ->
+    In r (snd (A64.caller_save_registers_info context)).
+Proof. exact A64Wf.saved_covers_live. Qed.
+Print Assumptions C13_a64_saved_covers_live.
+
+(* witness: 13 integer variables; the 13th lives in X30; the list computed with `>` misses X30, the
+   repaired code has it *)
+Theorem C13_a64_link_register_defect_witness :
+  let context := repeat (AxSyn.mkb ("x"%string, 0%N) AxSyn.Ext AxSyn.I64) 13 in
+  nth_error context 12 = Some (AxSyn.mkb ("x"%string, 0%N) AxSyn.Ext AxSyn.I64) /\
+  A64.temporary_from_position (2 * N.of_nat 12 + Backend.tnum_n Backend.Snd) = Backend.Ok (A64.AR (A64.X 29)) /\
+  ~ In 29%N (A64Wf.info_before_fix context) /\
+  In 29%N (snd (A64.caller_save_registers_info context)).
+Proof. exact A64Wf.saved_covers_live_fails_before_fix. Qed.
+Print Assumptions C13_a64_link_register_defect_witness.
+
+Theorem C13_a64_saved_set :
+  forall context : AxSyn.ctx,
+    let regs := snd (A64.caller_save_registers_info context) in
+    In 0%N regs /\ In 1%N regs /\
+    (In 29%N regs <-> exists b, nth_error context 12 = Some b /\
+                                A64.temporary_from_position (2 * 12 + Backend.tnum_n Backend.Snd) = Backend.Ok (A64.AR (A64.X 29))) /\
+    (forall r, In r regs -> (r <= 17)%N \/ r = 29%N) /\
+    NoDup regs.
+Proof.
+  exact (fun context => conj (proj1 (A64Wf.saved_heap_free context)) (conj (proj2 (A64Wf.saved_heap_free context))
+          (conj (A64Wf.saved_link_register_iff context) (conj (A64Wf.saved_are_clobberable context) (A64Wf.saved_nodup context))))).
+Qed.
+Print Assumptions C13_a64_saved_set.
+
+Theorem C13_a64_backups_callee_saved_and_free :
+  forall (context : AxSyn.ctx) (k : nat),
+    let '(fb, regs) := A64.caller_save_registers_info context in
+    (k < A64.backup_used fb regs)%nat ->
+    (18 <= fb + N.of_nat k <= 28)%N /\ (2 * N.of_nat (List.length context) + 4 <= fb + N.of_nat k)%N.
+Proof. exact A64Wf.backups_callee_saved_and_free. Qed.
+Print Assumptions C13_a64_backups_callee_saved_and_free.
+
+(* THE SEMANTIC STATEMENT.  `frame_ok s sp`: SP = sp, 16-byte aligned, the spill area inside the stack
+   region; 144 bytes = the at most 18 cells pushed.  `print_src_ok`: the printed temporary is a spill
+   slot or a register below the first backup register (every variable temporary is, see the Example
+   A64Print.a64_print_src_ok_variable). *)
+Theorem C13_a64_print_preserves_context :
+  forall (im : A64Sem.image) (newline : bool) (src : A64.atemp) (context : AxSyn.ctx) (s : A64Sem.astate) (sp v : Z),
+    A64State.frame_ok s sp -> A64Sem.STACK_LIMIT + 144 <= sp ->
+    A64Print.print_src_ok context src -> A64State.lget s sp src = Some v ->
+    exists s',
+      A64Sem.run_straight im (A64.a_print newline src context) s = A64Sem.MOk s' /\
+      A64Sem.out s' = (newline, v) :: A64Sem.out s /\ A64Sem.heap s' = A64Sem.heap s /\ A64State.frame_ok s' sp /\
+      A64Sem.rget s' A64.HEAP = A64Sem.rget s A64.HEAP /\ A64Sem.rget s' A64.FREE = A64Sem.rget s A64.FREE /\
+      (forall i b n t, nth_error context i = Some b -> (n = Backend.Snd \/ AxSyn.bchi b <> AxSyn.Ext) ->
+         A64.temporary_from_position (2 * N.of_nat i + Backend.tnum_n n) = Backend.Ok t ->
+         A64State.lget s' sp t = A64State.lget s sp t) /\
+      (forall k, sp <= Z.pos k - 1 -> A64Sem.PM.find k (A64Sem.stack s') = A64Sem.PM.find k (A64Sem.stack s)).
+Proof. exact A64Print.a64_print_ok. Qed.
+Print Assumptions C13_a64_print_preserves_context.
+
+(* prologue / epilogue *)
+Theorem C13_a64_body_alignment :
+  forall (n : nat) (cs : list A64.acode), A64.setup n = Backend.Ok cs -> A64Wf.sp_delta cs mod 16 = 0 /\ A64Wf.sp_safe 0 cs.
+Proof. exact A64Wf.body_alignment. Qed.
+Print Assumptions C13_a64_body_alignment.
+
+Theorem C13_a64_prologue_epilogue_balanced :
+  forall (n : nat) (cs : list A64.acode),
+    A64.setup n = Backend.Ok cs -> A64Wf.sp_delta cs + A64Wf.sp_delta A64.cleanup = 0 /\ A64Wf.sp_safe (A64Wf.sp_delta cs) A64.cleanup.
+Proof. exact A64Wf.prologue_epilogue_balanced. Qed.
+Print Assumptions C13_a64_prologue_epilogue_balanced.
+
+Theorem C13_a64_epilogue_restores_callee_saved :
+  forall (n : nat) (cs : list A64.acode),
+    A64.setup n = Backend.Ok cs ->
+    flat_map A64Wf.ldp_pairs A64.cleanup = rev (flat_map A64Wf.stp_pairs cs) /\
+    flat_map (fun p => [fst p; snd p]) (flat_map A64Wf.stp_pairs cs) = map A64.X (A64Sem.callee_saved ++ [A64Sem.LR]).
+Proof. exact A64Wf.epilogue_restores_callee_saved. Qed.
+Print Assumptions C13_a64_epilogue_restores_callee_saved.
+
+(* on the ISA semantics: from an entry state (SP = sp0 aligned, X0 = heap base h) the prologue
+   establishes the body frame at sp0 - 2144 with the n arguments in the variable registers; from ANY
+   later state s2 with the body's SP whose stack at and above the saved cells is intact, the epilogue
+   (everything of `cleanup` before the RET) gives X19-X29, X30 and SP their entry values and leaves
+   X0-X17 (the result register X0 in particular) alone *)
+Theorem C13_a64_entry_exit :
+  forall (im : A64Sem.image) (n : nat) (cs : list A64.acode) (s : A64Sem.astate) (sp0 h : Z),
+    A64.setup n = Backend.Ok cs ->
+    A64Sem.spv s = Some sp0 -> sp0 mod 16 = 0 -> A64Sem.STACK_LIMIT + 2144 <= sp0 -> sp0 <= A64Sem.STACK_TOP ->
+    A64Sem.xget s 0 = Some h ->
+    exists s1,
+      A64Sem.run_straight im cs s = A64Sem.MOk s1 /\
+      A64State.frame_ok s1 (sp0 - 2144) /\ A64Sem.heap s1 = A64Sem.heap s /\ A64Sem.out s1 = A64Sem.out s /\
+      A64Sem.xget s1 0 = Some h /\
+      A64Sem.xget s1 1 = Some (AxSem.wrap (h + A64.field_offset Backend.Fst A64.FIELDS_PER_BLOCK)) /\
+      (forall j, (1 <= j <= n)%nat -> A64Sem.xget s1 (2 * N.of_nat j + 3) = A64Sem.xget s (N.of_nat j)) /\
+      (forall k, sp0 <= Z.pos k - 1 -> A64Sem.PM.find k (A64Sem.stack s1) = A64Sem.PM.find k (A64Sem.stack s)) /\
+      forall s2,
+        A64Sem.spv s2 = Some (sp0 - 2144) ->
+        (forall k, sp0 - 96 <= Z.pos k - 1 -> A64Sem.PM.find k (A64Sem.stack s2) = A64Sem.PM.find k (A64Sem.stack s1)) ->
+        exists s3,
+          A64Sem.run_straight im (removelast A64.cleanup) s2 = A64Sem.MOk s3 /\
+          A64Sem.spv s3 = Some sp0 /\
+          (forall r, (18 <= r <= 29)%N -> A64Sem.xget s3 r = A64Sem.xget s r) /\
+          (forall r, (r < 18)%N -> A64Sem.xget s3 r = A64Sem.xget s2 r) /\
+          A64Sem.heap s3 = A64Sem.heap s2 /\ A64Sem.out s3 = A64Sem.out s2 /\ A64Sem.stack s3 = A64Sem.stack s2.
+Proof. exact A64Entry.a64_entry_exit_ok. Qed.
+Print Assumptions C13_a64_entry_exit.
+
+(* WHOLE PROGRAMS (model level).  For every program the model compiles, the routine is
+   preamble ++ prologue ++ body ++ epilogue where: the prologue keeps SP 16-byte aligned at each of its
+   stores, moves it by a multiple of 16 and contains no label or branch; in the BODY (all code of all
+   definitions) SP is written only inside the save/restore bracket of a print sequence, its displacement
+   from the body value is 0 mod 16 at every BL and every SP-relative load/store, and is 0 at every label,
+   branch and RET (`A64SpFlow.sp_disciplined`: so every control transfer leaves and arrives at
+   displacement 0 and the linear walk covers every execution path); the epilogue is aligned and balanced.
+   Hence on AArch64 SP is 16-byte aligned at EVERY stack access and at every call of the print runtime, in
+   every compiled program, for every number of live variables.  Proof: Proof/CodegenForall.v (every
+   piece of code of code_statement comes from a back-end method, by induction over statements) +
+   Proof/A64SpFlow.v (every method other than print emits SP-neutral instructions: instruction
+   selection, immediates, parallel moves, share/erase, store/load of closures with their recursion).
+   Instance: Example A64SpFlow.a64_routine_sp_discipline_instance. *)
+From SCC Require Proof.A64SpFlow.
+Theorem C13_a64_program_sp_discipline :
+  forall (p : AxSyn.prog) (lc : N) (r : list A64.acode) (n : nat) (lc' : N),
+    A64.a64_compile p lc = Backend.Ok (r, n, lc') ->
+    exists s body,
+      r = A64.preamble ++ s ++ body ++ A64.cleanup /\ A64.setup n = Backend.Ok s /\
+      A64SpFlow.sp_disciplined A64.preamble /\
+      (A64Wf.sp_delta s mod 16 = 0 /\ A64Wf.sp_safe 0 s /\ Forall (fun c => A64SpFlow.is_control c = false) s) /\
+      A64SpFlow.sp_disciplined body /\
+      (A64Wf.sp_delta s + A64Wf.sp_delta A64.cleanup = 0 /\ A64Wf.sp_safe (A64Wf.sp_delta s) A64.cleanup).
+Proof. exact A64SpFlow.a64_routine_sp_discipline. Qed.
+Print Assumptions C13_a64_program_sp_discipline.
+
+(* RISC-V: the back end has NO print runtime call (print_i64 is a panic 'not implemented in RISC-V
+   backend', modelled by rv_compile answering Err for every program with a print) and NO
+   prologue/epilogue: into_rv64_routine only joins the instructions' text between the comment line
+   'actual code' and the label 'cleanup:'; it emits no instruction of its own, never touches sp or
+   ra and returns nowhere.  So C13 has no RISC-V content beyond these two facts. *)
+From SCC Require Model.RV.
+Theorem C13_rv_print_not_implemented :
+  forall (p : AxSyn.prog) (lc : N), RV.prog_has_print p = true -> RV.rv_compile p lc = Backend.Err "not implemented in RISC-V backend"%string.
+Proof. intros p lc H. unfold RV.rv_compile. rewrite H. reflexivity. Qed.
+Print Assumptions C13_rv_print_not_implemented.
+Theorem C13_rv_no_prologue_epilogue :
+  forall items : list RV.ritem,
+    RV.into_rv64_routine items =
+    String.concat (Sexp.nl +++ Sexp.nl)%string
+      [("// actual code" +++ String.concat Sexp.nl (map RV.display_item items))%string; "cleanup:"%string].
+Proof. reflexivity. Qed.
+Print Assumptions C13_rv_no_prologue_epilogue.
